@@ -240,7 +240,12 @@ impl TcpStream {
         connect_as(task, kernel::IPPROTO_TCP, addr.as_ref(), true).await
     }
 
+    /// getpeername(2): a connection that was reset has no peer any more (ENOTCONN); after an orderly close by the
+    /// peer the address is still reported
     pub fn peer_addr(&self) -> io::Result<SocketAddr> {
+        if self.shared.lock().unwrap().pipes.iter().any(|p| p.reset) {
+            return Err(io::Error::from_raw_os_error(107)); // ENOTCONN
+        }
         Ok(SocketAddr::V4(self.peer))
     }
     pub fn local_addr(&self) -> io::Result<SocketAddr> {
